@@ -16,7 +16,7 @@ RULE = ("the C15 configuration space (model tags x rated power x all subsets of 
 ASSUMPTIONS = ["the simulated inverter answers every read with exactly 2 x count payload bytes",
                "values decoded from a refused block's predecessor response would also show as foreign reads in C12/C15; this "
                "check decides only 'no reported value is fabricated from missing bytes'"]
-MUST = ["firmware_version_variants", "poll_with_one_block_read_unanswered", "single_read_windows_checked", "fallback_read_lost_for_another_reason", "connect_while_inverter_silent", "offered_sensors_checked", "single_reads_observed", "overlapping_polls", "poll_with_transient_rejection", "poll_after_failed_device_info", "tcp_wrong_mbap_length", "configs_run", "reads_observed", "block_running", "block_battery", "block_battery2", "block_meter_basic",
+MUST = ["block_refused_by_length_only", "firmware_version_variants", "poll_with_one_block_read_unanswered", "single_read_windows_checked", "fallback_read_lost_for_another_reason", "connect_while_inverter_silent", "offered_sensors_checked", "single_reads_observed", "overlapping_polls", "poll_with_transient_rejection", "poll_after_failed_device_info", "tcp_wrong_mbap_length", "configs_run", "reads_observed", "block_running", "block_battery", "block_battery2", "block_meter_basic",
         "block_meter_ext", "block_meter_ext2", "block_mppt", "block_dt_running", "block_dt_meter", "block_es_runtime"]
 EXHAUSTIVE = {"quick": False, "thorough": True}
 
@@ -29,7 +29,7 @@ def check_config(cfg, part, rl, port=8899, mbap=None, rerun_info=False):
     g = env.goodwe()
     fam = cfg["family"]
     case = {"config": cfg, "port": port, "mbap": mbap}
-    tag = f"{fam} {cfg['tag']} rated={cfg['rated']} refused={cfg['refused']} battery={cfg['battery']} fw={cfg.get('fw_versions')}"
+    tag = f"{fam} {cfg['tag']} rated={cfg['rated']} refused={cfg['refused']} battery={cfg['battery']} fw={cfg.get('fw_versions')} refused-by-length={cfg.get('refuse_exact')}"
 
     async def failing_device_info_then_poll(inv, sim, loop, res_):
         """history: a repeated read_device_info() gets no answer (reconnect), the next poll must still decode only what it fetched"""
@@ -227,7 +227,7 @@ def check_config(cfg, part, rl, port=8899, mbap=None, rerun_info=False):
     part.evaluations += 1
     part.count("configs_run")
     case = {"config": cfg, "port": port, "mbap": mbap}
-    tag = f"{fam} {cfg['tag']} rated={cfg['rated']} refused={cfg['refused']} battery={cfg['battery']} fw={cfg.get('fw_versions')}"
+    tag = f"{fam} {cfg['tag']} rated={cfg['rated']} refused={cfg['refused']} battery={cfg['battery']} fw={cfg.get('fw_versions')} refused-by-length={cfg.get('refuse_exact')}"
     if run.stop or run.error is not None:
         part.violate(f"C14/{fam}/setup-failed", f"{tag}: {run.stop or repr(run.error)}", case)
         return
@@ -323,6 +323,12 @@ def run_shard(spec):
             cfg = dict(cfg, fw_versions=fwv[(i * 5 + env.seed()) % len(fwv)])
             if cfg["fw_versions"] is not None:
                 part.count("firmware_version_variants")
+        if cfg["family"] == "ET" and i % 4 == 1:
+            # firmware that refuses one block read by its LENGTH (ILLEGAL DATA ADDRESS for exactly that count) and would serve any shorter
+            # read at the same address: whatever fallback the library has for it must still fetch what it offers
+            blk = [(36000, 125), (35301, 61), (37000, 24), (39000, 22), (36000, 58)][(i // 4) % 5]
+            cfg = dict(cfg, refuse_exact=[blk] + ([(36000, 125)] if blk == (36000, 58) else []))
+            part.count("block_refused_by_length_only")
 
         if i % spec["shards"] != spec["shard"]:
             continue
